@@ -43,6 +43,15 @@ type injector struct {
 	log    []string
 	wlen   map[int]int // length of the n-th mutation when it is a write
 	trail  *os.File    // every mutation is also appended here: what a dying child did stays readable
+
+	// error mode (errors.go): instead of dying at a mutation, the errAt-th repository or clock-file call of any kind (reads
+	// too) returns an error and does nothing; errAt < 0 only counts the calls
+	errMode bool
+	errAt   int
+	calls   int
+	kinds   []string
+	fired   string
+	last    time.Time
 }
 
 var inj = &injector{tear: -1, wlen: map[int]int{}}
@@ -53,7 +62,7 @@ func (i *injector) hit(kind string) bool {
 	defer i.mu.Unlock()
 	i.n++
 	i.log = append(i.log, kind)
-	if i.trail != nil {
+	if i.trail != nil && !i.errMode {
 		fmt.Fprintln(i.trail, kind)
 	}
 	return i.target != 0 && i.n == i.target
@@ -66,50 +75,85 @@ type faultRepo struct {
 }
 
 func (f faultRepo) StoreData(data []byte) (repository.Hash, error) {
+	if inj.failing("blob") {
+		return "", errInjected
+	}
 	if inj.hit("blob") {
 		die()
 	}
-	return f.ClockedRepo.StoreData(data)
+	h, err := f.ClockedRepo.StoreData(data)
+	inj.after("blob", err)
+	return h, err
 }
 func (f faultRepo) StoreTree(t []repository.TreeEntry) (repository.Hash, error) {
+	if inj.failing("tree") {
+		return "", errInjected
+	}
 	if inj.hit("tree") {
 		die()
 	}
-	return f.ClockedRepo.StoreTree(t)
+	h, err := f.ClockedRepo.StoreTree(t)
+	inj.after("tree", err)
+	return h, err
 }
 func (f faultRepo) StoreCommit(tree repository.Hash, parents ...repository.Hash) (repository.Hash, error) {
+	if inj.failing("commit") {
+		return "", errInjected
+	}
 	if inj.hit("commit") {
 		die()
 	}
-	return f.ClockedRepo.StoreCommit(tree, parents...)
+	h, err := f.ClockedRepo.StoreCommit(tree, parents...)
+	inj.after("commit", err)
+	return h, err
 }
 func (f faultRepo) StoreSignedCommit(tree repository.Hash, k *openpgp.Entity, parents ...repository.Hash) (repository.Hash, error) {
+	if inj.failing("commit") {
+		return "", errInjected
+	}
 	if inj.hit("commit") {
 		die()
 	}
-	return f.ClockedRepo.StoreSignedCommit(tree, k, parents...)
+	h, err := f.ClockedRepo.StoreSignedCommit(tree, k, parents...)
+	inj.after("commit", err)
+	return h, err
 }
 func (f faultRepo) UpdateRef(ref string, h repository.Hash) error {
+	if inj.failing("ref " + ref) {
+		return errInjected
+	}
 	if inj.hit("ref " + ref) {
 		die()
 	}
-	return f.ClockedRepo.UpdateRef(ref, h)
+	err := f.ClockedRepo.UpdateRef(ref, h)
+	inj.after("ref "+ref, err)
+	return err
 }
 func (f faultRepo) CopyRef(src, dst string) error {
+	if inj.failing("ref " + dst) {
+		return errInjected
+	}
 	if inj.hit("ref " + dst) {
 		die()
 	}
-	return f.ClockedRepo.CopyRef(src, dst)
+	err := f.ClockedRepo.CopyRef(src, dst)
+	inj.after("ref "+dst, err)
+	return err
 }
 func (f faultRepo) RemoveRef(ref string) error {
 	kind := "rmref "
 	if strings.HasPrefix(ref, "refs/remotes/") {
 		kind = "rmtrack "
 	}
+	if inj.failing(kind + ref) {
+		return errInjected
+	}
 	if inj.hit(kind + ref) {
 		die()
 	}
-	return f.ClockedRepo.RemoveRef(ref)
+	err := f.ClockedRepo.RemoveRef(ref)
+	inj.after(kind+ref, err)
+	return err
 }
 
 // faultFS observes and interrupts the file operations on git-bug's own files (only the clock files matter here).
@@ -124,6 +168,9 @@ func (f faultFS) OpenFile(name string, flag int, perm os.FileMode) (billy.File, 
 		kind := "fs-open"
 		if flag&os.O_TRUNC != 0 {
 			kind = "fs-open-trunc"
+		}
+		if inj.failing(kind) {
+			return nil, errInjected
 		}
 		dead := inj.hit(kind)
 		file, err := f.Filesystem.OpenFile(name, flag, perm)
@@ -142,6 +189,9 @@ func (f faultFS) Create(name string) (billy.File, error) {
 }
 func (f faultFS) Rename(from, to string) error {
 	if isClock(from) || isClock(to) {
+		if inj.failing("fs-rename") {
+			return errInjected
+		}
 		if inj.hit("fs-rename") {
 			die()
 		}
@@ -150,6 +200,9 @@ func (f faultFS) Rename(from, to string) error {
 }
 func (f faultFS) TempFile(dir, prefix string) (billy.File, error) {
 	if isClock(dir) {
+		if inj.failing("fs-open-temp") {
+			return nil, errInjected
+		}
 		dead := inj.hit("fs-open-temp")
 		file, err := f.Filesystem.TempFile(dir, prefix)
 		if dead {
@@ -169,6 +222,9 @@ type faultFile struct {
 }
 
 func (f *faultFile) Write(p []byte) (int, error) {
+	if inj.failing("fs-write") {
+		return 0, errInjected
+	}
 	dead := inj.hit("fs-write")
 	inj.mu.Lock()
 	inj.wlen[inj.n] = len(p)
@@ -491,6 +547,32 @@ func scenarios() []scenario {
 			localEdit(dir, "second bug", "alice")
 			localEdit(dir, "third bug", "alice")
 		}, func(dir string, repo repository.ClockedRepo, raw *repository.GoGitRepo) { pullAll(repo) }},
+		{"pull-identity-versions-ahead", func(dir string) {
+			// identities the replica knows come back several versions ahead (one of them along with a new bug of its owner): each
+			// identity goes from its old chain to the whole new one in one step
+			prepBaseN(dir, []string{"alice", "bob", "carol"}, []string{"the bug"})
+			b := openB(dir)
+			bob := author(b, "bob").(*identity.Identity)
+			for k := 0; k < 3; k++ {
+				kk := k
+				hx.Must(bob.Mutate(b, func(m *identity.Mutator) { m.Login = fmt.Sprintf("bob-%d", kk) }))
+				hx.Must(bob.Commit(b))
+			}
+			carol := author(b, "carol").(*identity.Identity)
+			for k := 0; k < 2; k++ {
+				kk := k
+				hx.Must(carol.Mutate(b, func(m *identity.Mutator) { m.Name = fmt.Sprintf("carol the %d.", kk+2) }))
+				hx.Must(carol.Commit(b))
+			}
+			bg, _, err := bug.Create(carol, 1600000500, "from carol", "message", nil, nil)
+			hx.Must(err)
+			hx.Must(bg.Commit(b))
+			_, err = identity.Push(b, "origin")
+			hx.Must(err)
+			_, err = bug.Push(b, "origin")
+			hx.Must(err)
+			_ = b.Close()
+		}, func(dir string, repo repository.ClockedRepo, raw *repository.GoGitRepo) { pullAll(repo) }},
 		{"remove-bug", func(dir string) { prepBaseN(dir, []string{"alice", "bob"}, []string{"the bug", "second bug"}) },
 			func(dir string, repo repository.ClockedRepo, raw *repository.GoGitRepo) {
 				// the id is asked from replica B: a repeated call still finds it
@@ -668,6 +750,13 @@ func Child(args []string) {
 	if len(args) > 3 {
 		inj.tear, _ = strconv.Atoi(args[3])
 	}
+	if len(args) > 4 {
+		inj.errAt, _ = strconv.Atoi(args[4])
+		inj.errMode = inj.errAt != 0
+		// a pull that reports an error returns while the goroutine behind its result channel may still be at work: let it
+		// come to rest (it blocks at its next result) before the process ends, so that what is logged as done is done
+		hx.BeforeExit = inj.waitQuiet
+	}
 	var err error
 	inj.trail, err = os.OpenFile(filepath.Join(dir, "trail.log"), os.O_CREATE|os.O_TRUNC|os.O_WRONLY, 0o644)
 	hx.Must(err)
@@ -680,7 +769,7 @@ func Child(args []string) {
 	for k, v := range inj.wlen {
 		wl[strconv.Itoa(k)] = v
 	}
-	b, _ := json.Marshal(map[string]interface{}{"mutations": inj.log, "wlen": wl})
+	b, _ := json.Marshal(map[string]interface{}{"mutations": inj.log, "wlen": wl, "calls": inj.kinds, "fired": inj.fired})
 	fmt.Println(string(b))
 }
 
